@@ -272,7 +272,7 @@ pub fn check() -> PropertyCheck {
         level: "exploration",
         rule: "each case = 1..3 real Tracers (ICMP / UDP Dublin / UDP Paris / TCP, max-flows 1/2/64, sample limits 0..256, first-ttl 1..6, optionally warmed up by a short simulated run that sets the source address or a fatal error) behind a real TuiApp built through argv -> build_config -> make_tui_config (address / AS / GeoIP / extension modes, privacy, max-addrs, 5 column sets, terminal 1x1..300x100), driven by up to 40 operations: any of the 36 bindable commands (dispatched as run_app does, per help / settings / normal mode), 1..4 synthetic rounds applied to a trace (growing / shrinking paths, new flows, silent hops), clearing a trace, resizing; after every operation one loop iteration (snapshot, clamp, order flows, draw on a TestBackend) runs under catch_unwind and the selected hop / hop address / flow / trace / settings tab must exist in the displayed data. evaluations count operations; non-trivial = >= 3 commands and >= 1 trace update; distinct by the operation sequence",
         assumptions: vec![
-            "frontend.rs::run_app's key -> method dispatch table is mirrored in the harness (tui::dispatch); quit commands are excluded",
+            "frontend.rs::run_app is parsed from its source and interpreted (tui_loop.rs): refresh, draw and per-mode key dispatch follow the file; commands are injected at the binding level (crossterm key decoding not exercised); quit commands are excluded",
             "DNS names, AS and GeoIP text come from seeded fixtures (verif_seed, a generated MaxMind DB); no lookups leave the process",
         ],
         subs: vec![
